@@ -57,6 +57,12 @@ class PropertyGroup(ABC):
     ):
         self.name = name or "property_group"
         self.uid = uid or uuid.uuid4()
+
+        # Refuse an identifier owned by a live entity or property group before the parent adopts this one
+        workspace = getattr(parent, "workspace", None)
+        if workspace is not None and workspace.find_entity(self.uid) is not None:
+            raise RuntimeError(f"Key '{self.uid}' already used.")
+
         self._allow_delete = True
         self.on_file = on_file
         self._association: DataAssociationEnum = DataAssociationEnum.VERTEX
